@@ -133,8 +133,88 @@ def paired_r2_tally(ctx, case):
     compare_tally(ctx, inp, ref, rows, jj)
 
 
+def linked_tally(ctx):
+    """linked adapters: the statistics of the 5' end hold the matches of the 5' part (its own removed length and its own error count), those of the
+    3' end the matches of the 3' part - recomputed with the two parts searched one after the other, as documented"""
+    import logging
+    import cutadapt.cli as cli
+    rng = ctx.rng
+    def mut(t, k):
+        t = list(t)
+        for _ in range(k):
+            j = rng.randrange(len(t))
+            t[j] = rng.choice([c for c in "ACGT" if c != t[j]])
+        return "".join(t)
+    for _ in range(ctx.scale(6, 60)):
+        F, B = rng.choice([("ACGGATTCAGGCTTAC", "GCTTAGGACCATTGCA"), ("AAAGGGCCCTTTGGAC", "TTAGGCATCGGATCCA")])
+        spec = rng.choice(["", "^"]) + F + "..." + B + rng.choice(["", "$"])
+        argv = ["--no-index", rng.choice(["-a", "-g"]), "lnk=" + spec, "-e", rng.choice(["0.15", "0.2"]), "-o", "{dir}/o1.fastq"]
+        reads = []
+        for i in range(rng.randint(20, 40)):
+            ins = pipe.rs(rng, rng.randint(5, 15))
+            f = mut(F, rng.choice([0, 1, 1, 2])) if rng.random() < 0.85 else ""
+            b = mut(B, rng.choice([0, 0, 1, 2])) if rng.random() < 0.85 else ""
+            s_ = (pipe.rs(rng, rng.randint(0, 3)) if not spec.startswith("^") and rng.random() < 0.5 else "") + f + ins + b + \
+                 (pipe.rs(rng, rng.randint(0, 4)) if not spec.endswith("$") and rng.random() < 0.5 else "")
+            reads.append((f"r{i}", s_, "I" * len(s_)))
+        case = dict(argv=argv, paired=False, reads1=reads, reads2=None, with_qual=True, interleaved_in=False)
+        res2, real2 = pipe.run_real(case, want_json=True)
+        ctx.evaluations += 1
+        if res2.json is None or "error" in real2:
+            continue
+        parser = cli.get_argument_parser()
+        args = parser.parse_args([t for t in argv if t != "{dir}/o1.fastq" and t != "-o"] + ["in.fastq"])
+        logging.disable(logging.CRITICAL)
+        try:
+            pipe.patch_prefilter()
+            ads, _ = cli.adapters_from_args(args)
+        finally:
+            logging.disable(logging.NOTSET)
+        la = ads[0]
+        front, back, nmatch, adj = {}, {}, 0, {}
+        for n_, s_, _q in reads:
+            fm = la.front_adapter.match_to(s_)
+            if la.front_required and fm is None:
+                continue
+            rest = s_[fm.rstop:] if fm is not None else s_
+            bm = la.back_adapter.match_to(rest)
+            if bm is None and (la.back_required or fm is None):
+                continue
+            nmatch += 1
+            if fm is not None:
+                front.setdefault(fm.rstop, {}).setdefault(fm.errors, 0)
+                front[fm.rstop][fm.errors] += 1
+            if bm is not None:
+                rem = len(rest) - bm.rstart
+                back.setdefault(rem, {}).setdefault(bm.errors, 0)
+                back[rem][bm.errors] += 1
+                c = rest[bm.rstart - 1: bm.rstart] if bm.rstart > 0 else ""
+                c = c if c in ("A", "C", "G", "T") else ""
+                adj[c] = adj.get(c, 0) + 1
+        a = res2.json["adapters_read1"][0]
+        inp = dict(case_input(case), linked=True)
+        ctx.count("linked-tally-run")
+        if front or back:
+            ctx.nontriv(("linked-tally", tuple(argv), len(reads)))
+        nparts = sum(c for d_ in front.values() for c in d_.values()) + sum(c for d_ in back.values() for c in d_.values())
+        if a["total_matches"] != nparts:
+            ctx.failures.append(Failure("C20/total-matches", "total_matches of a linked adapter differs from the number of 5' part matches plus 3' part matches that "
+                                        "were applied", inp, a["total_matches"], nparts))
+            continue
+        for key, exp in (("five_prime_end", front), ("three_prime_end", back)):
+            e = a[key] or {}
+            got = {row["len"]: {i: c for i, c in enumerate(row["counts"]) if c} for row in (e.get("trimmed_lengths") or [])}
+            if got != exp:
+                ctx.failures.append(Failure("C20/length-histogram", f"trimmed_lengths of the linked adapter ({key}) differ from the tally of the matches of that part "
+                                            "(removed length and the part's own error count)", inp, got, exp))
+        gadj = {k: v for k, v in ((a["three_prime_end"] or {}).get("adjacent_bases") or {}).items() if v}
+        if gadj != adj:
+            ctx.failures.append(Failure("C20/adjacent-bases", "adjacent_bases of the linked adapter's 3' part differ from the tally", inp, gadj, adj))
+
+
 def run(ctx):
     error_ranges_cases(ctx)
+    linked_tally(ctx)
     pipeprop.run(ctx, "C20", FOCUS, tally_oracle, 300, 5000,
                  "function level: ErrorRanges for all lengths 1..40(64) x 14 rates; pipeline level: random command lines with adapters, --info-file, --times, "
                  "actions, --revcomp; non-trivial = distinct case with at least one applied match / a range list with more than one entry",
